@@ -132,6 +132,18 @@ func exact(b []byte) []byte {
 	return c
 }
 
+// dirty returns a copy of b in a buffer of the listeners' kind: capacity beyond MaxPacketLen and
+// stale non-zero bytes behind len(b), as a receive buffer reused across datagrams has them.
+// EncodePacket encodes in place into such a buffer; whatever it does not write stays stale.
+func dirty(b []byte) []byte {
+	c := make([]byte, 2*nts.MaxPacketLen)
+	for i := range c {
+		c[i] = 0xa5
+	}
+	copy(c, b)
+	return c[:len(b)]
+}
+
 func kv(t []string, key string) (string, bool) {
 	for _, x := range t {
 		if strings.HasPrefix(x, key+"=") {
@@ -279,7 +291,7 @@ func mkPacket(uid []byte, cs, phs [][]byte, key, pt []byte) nts.Packet {
 // associated data the packet really carries in front of its authenticator.
 func encode(hdr []byte, p *nts.Packet, adlen int) []byte {
 	nonce := rnd.peek(16)
-	b := exact(hdr)
+	b := dirty(hdr)
 	nts.EncodePacket(&b, p)
 	if adlen > len(b) {
 		adlen = len(b)
